@@ -95,7 +95,16 @@ impl C16 {
                         let route = format!("/k{}", key.1);
                         match o.op.as_str() {
                             "set" => {
-                                let size = if limit == 0 { 0 } else { o.size % (limit + 1) };
+                                // any size up to the limit, with the limit itself and limit - 1 favoured
+                                let size = if limit == 0 {
+                                    0
+                                } else {
+                                    match o.size % 8 {
+                                        0 => limit,
+                                        1 => limit - 1,
+                                        _ => o.size % (limit + 1),
+                                    }
+                                };
                                 let data = content(tid, i, size);
                                 let mime = MIMES[o.mime % MIMES.len()];
                                 let mut c = cache.write().unwrap();
